@@ -478,8 +478,12 @@ where
         self: &'a mut Pin<&mut Self>,
         cx: &mut Context<'_>,
     ) -> Poll<Option<Result<(), ChannelError<C::Error>>>> {
-        while self.poll_ready(cx)?.is_pending() {
+        if self.poll_ready(cx)?.is_pending() {
             ready!(self.poll_flush(cx)?);
+            // poll_ready registered the current task for wakeup when the transport may be ready
+            // again. Don't retry in the same poll: transports whose flush is independent of
+            // readiness would otherwise be busy-polled.
+            return Poll::Pending;
         }
         Poll::Ready(Some(Ok(())))
     }
